@@ -124,7 +124,7 @@ def registered(ctx):
             ctx.check(ok, ri.key, 'del_user(old id)', 'refresh_id removes an identifier other than the one being replaced', 'del_user(&id)', d.where())
     # is_known really tests membership in users
     ik = F.fn('core::TracingSecretKey::is_known')
-    cs = ik.calls(r'HashSet::<[^>]*>::contains')
+    cs = ik.calls(r'(HashSet|BTreeSet)::<[^>]*>::contains')
     ret = backward_slice(ik, [0], follow_mutarg=False)
     ctx.check(len(cs) == 1 and any(x is cs[0] for x in ret.calls) and not [c for c in ik.calls() if c.is_(r'::not$')], ik.key,
               'is_known = users.contains', 'is_known no longer returns users.contains(id)', 'users.contains(id)', ik.where())
@@ -139,7 +139,7 @@ def registered(ctx):
                   'add_user, del_user, new_with_level and read may' % (body.key, kind, ln), '', body.where(ln))
     ctx.floor(n, 4, 'writers of TracingSecretKey.users')
     au = F.fn('core::TracingSecretKey::add_user')
-    ctx.check(len(au.calls(r'HashSet::<[^>]*>::insert$')) == 1, au.key, 'add_user inserts', 'add_user no longer inserts into users', '', au.where())
+    ctx.check(len(au.calls(r'(HashSet|BTreeSet)::<[^>]*>::insert$')) == 1, au.key, 'add_user inserts', 'add_user no longer inserts into users', '', au.where())
 
 
 def tracer_projection(F, key, out_desc):
